@@ -210,3 +210,33 @@ Example at_rest_nontrivial :
   let st := run true (repeat 0%nat 6) (initb 3 32 [[WithR]]) in
   map tpc (ths st) = [WBody] /\ ar (sh st) = 1 /\ live st = [Tok KR 2 1].
 Proof. vm_compute. auto. Qed.
+
+(* (iii) at every instant, not only at quiescence: a counter is at least the number of live tokens of its kind and exceeds it
+   by at most the number of threads that are in the middle of an acquire or a release *)
+Definition busy (th : thread) : bool := negb (rest_pc (tpc th)).
+Lemma cnt_pc_le k th : cnt_pc k (tpc th) <= if busy th then 1 else 0.
+Proof.
+  unfold busy. destruct (tpc th); cbn; try lia; destruct (kind_eqb _ _); lia.
+Qed.
+Lemma sumf_busy (l : list thread) : sumf (fun th => if busy th then 1 else 0) l = nlen (filter busy l).
+Proof.
+  induction l as [|a l IH]; cbn [sumf filter]; [reflexivity|]. rewrite IH. destruct (busy a); cbn [nlen]; lia.
+Qed.
+Lemma sumf_add {A} (f g : A -> N) l : sumf (fun x => f x + g x) l = sumf f l + sumf g l.
+Proof. induction l as [|a l IH]; cbn [sumf]; [reflexivity|]. rewrite IH. lia. Qed.
+
+Lemma counters_bounded_always_proof :
+  forall level b progs sched,
+    let st := run true sched (initb level b progs) in
+    count_kind KR (live st) <= ar (sh st) <= count_kind KR (live st) + nlen (filter busy (ths st)) /\
+    count_kind KW (live st) <= aw (sh st) <= count_kind KW (live st) + nlen (filter busy (ths st)).
+Proof.
+  intros level b progs sched st. pose proof (reachb_inv level b progs sched) as G. fold st in G.
+  rewrite (g_ar _ G), (g_aw _ G). unfold live. rewrite !count_kind_app, !count_kind_flat_map, <- sumf_busy.
+  assert (E : forall k, sumf (cnt k) (ths st) =
+                        sumf (fun th => count_kind k (tokens_of th)) (ths st) + sumf (fun th => cnt_pc k (tpc th)) (ths st)).
+  { intros k. unfold cnt. apply sumf_add. }
+  assert (B : forall k, sumf (fun th => cnt_pc k (tpc th)) (ths st) <= sumf (fun th => if busy th then 1 else 0) (ths st)).
+  { intros k. apply sumf_le. intros th. apply cnt_pc_le. }
+  rewrite !E. pose proof (B KR). pose proof (B KW). lia.
+Qed.
